@@ -38,7 +38,7 @@ CHECK = dict(
 
 
 def shards(tier, seed, scale):
-    per = 12 if tier == "quick" else 400
+    per = 36 if tier == "quick" else 600
     return common.mk_shards(16, seed, tier, per_shard=per, scale=scale)
 
 
@@ -52,7 +52,7 @@ def floors(tier, counters, evaluations):
     for k, n in (("aggregates_compared:notpacked", 3 * h), ("aggregates_compared:packed", 3 * h),
                  ("members_compared", 10 * h), ("access:c_to_expr_compared", 2 * h),
                  ("access:roundtrip_ok", 2 * h), ("feature:union", h // 2), ("feature:anonymous", h // 3),
-                 ("feature:inline", h // 2), ("feature:array", h), ("feature:pointer", h),
+                 ("feature:inline", h // 2), ("feature:array", (4 * h) // 5), ("feature:pointer", (4 * h) // 5),
                  ("feature:padding_needed", h // 2)):
         if counters.get(k, 0) < n:
             miss.append("%s=%d < %d" % (k, counters.get(k, 0), n))
@@ -233,7 +233,7 @@ def one_header(rec, M, hid, gen, S, Mm, A):
                 diffs.append("members %s vs %s" % (sorted(got[2]), sorted(gcc[2])))
             else:
                 diffs += ["%s at %d vs %d" % (n, got[2][n], gcc[2][n]) for n in names if got[2][n] != gcc[2][n]][:4]
-            rec.fail("%s layout differs from gcc (%s) [%s]" % (agg.kind, vname, mech),
+            rec.fail("layout differs from gcc (%s) [%s]" % (vname, mech),
                      "%s: miasm vs gcc: %s" % (agg.ref(), "; ".join(diffs)), w)
         # aggregates defined inline: compare the member's own ObjC
         fields = {}
@@ -346,11 +346,11 @@ def accesses(rec, M, hid, gen, mngr, S, Mm, A, wit, layout_diff):
             want = ExprMem(addr, size * 8)
         want = expr_simp(want)
         def afail(key, what):
-            if h.inline_refs:
+            if primary:
+                rec.fail("access form not handled: %s" % primary, "%s: %s" % (key, what), w)
+            elif h.inline_refs:
                 rec.fail("access in a header that names an aggregate defined inline elsewhere",
                          "%s: %s" % (key, what), w)
-            elif primary:
-                rec.fail("access form not handled: %s" % primary, "%s: %s" % (key, what), w)
             elif layout_diff and key.startswith("c_to_expr differs"):
                 rec.fail("access offset follows a layout that differs from gcc (reported per aggregate)",
                          "%s: %s" % (key, what), w)
@@ -400,7 +400,7 @@ def accesses(rec, M, hid, gen, mngr, S, Mm, A, wit, layout_diff):
             continue
         kind = "array" if fdims else ("address" if ch.addr_of else "value")
         what = "%s -> %s (type %s) -> %s" % (ch.c, gots, ctype, [(c2, str(t2)) for c2, t2 in back])
-        if same_expr and kind != "value":
+        if same_expr:
             # the address coincides with the start of an enclosing object (first member, element
             # 0): only that object is reported, with its own type
             afail("round trip reports only the enclosing object that starts at the same address (%s valued)" % kind,
